@@ -133,7 +133,7 @@ var specCounter = pbt.Register(&pbt.Spec[CounterCase]{
 		return CounterCase{Elem: rapid.IntRange(0, 1).Draw(t, "elem"), Inc: rapid.IntRange(2, 6).Draw(t, "inc"), Churn: rapid.SampledFrom([]int{0, 1, 3, 6, 10}).Draw(t, "churn"),
 			N: rapid.SampledFrom([]int{50, 500, 3000, 10000}).Draw(t, "n"), Procs: rapid.SampledFrom([]int{2, 4, 8, 16}).Draw(t, "procs")}
 	},
-	Run: RunCounter, Quick: 60, Thorough: 600, Crashy: true, Retries: 20,
+	Run: RunCounter, Quick: 100, Thorough: 600, Crashy: true, Retries: 20,
 })
 
 func TestC18AVCounter(t *testing.T) { pbt.Check(t, specCounter) }
